@@ -351,8 +351,14 @@ func compileMetadata(
 	}
 	keyspace.Aggregates = make(map[string]*AggregateMetadata, len(aggregates))
 	for i, _ := range aggregates {
-		aggregates[i].FinalFunc = *keyspace.Functions[aggregates[i].finalFunc]
-		aggregates[i].StateFunc = *keyspace.Functions[aggregates[i].stateFunc]
+		// final_func is null for an aggregate without FINALFUNC, and either name may be missing from the
+		// function rows: leave the zero FunctionMetadata then
+		if f := keyspace.Functions[aggregates[i].finalFunc]; f != nil {
+			aggregates[i].FinalFunc = *f
+		}
+		if f := keyspace.Functions[aggregates[i].stateFunc]; f != nil {
+			aggregates[i].StateFunc = *f
+		}
 		keyspace.Aggregates[aggregates[i].Name] = &aggregates[i]
 	}
 	keyspace.Views = make(map[string]*ViewMetadata, len(views))
